@@ -617,6 +617,64 @@ func r12_6(c *Ctx) {
 		pre = j && iv && instrDominates(a[2].(ssa.Instruction), growStore)
 	}
 	c.check(pre, name+":wait-from-pre-growth", P.pos(nx.Pos()), "nextInterval(Jitter, rng, interval) reads the interval before it is grown", "the wait is computed from the already grown interval (b_1 would be InitialInterval*Multiplier) or not from Jitter/interval")
+	// (d) elapsed-time limit: the comparison uses the wait that is actually returned
+	{
+		var waitVal ssa.Value = nil
+		if nextIv != nil {
+			waitVal = nextIv
+		}
+		found, good := false, false
+		for _, ifi := range ifsIn(nx) {
+			cnd := decodeIf(ifi)
+			if cnd.Y == nil {
+				continue
+			}
+			_, isMaxY := isFieldLoad(cnd.Y, "Backoff", "MaxElapsedTime")
+			_, isMaxX := isFieldLoad(cnd.X, "Backoff", "MaxElapsedTime")
+			var sum ssa.Value
+			var op token.Token
+			switch {
+			case isMaxY:
+				sum, op = cnd.X, cnd.Op
+			case isMaxX:
+				sum, op = cnd.Y, flipOp(cnd.Op)
+			default:
+				continue
+			}
+			add, ok := sum.(*ssa.BinOp)
+			if !ok || add.Op != token.ADD || (op != token.GTR && op != token.GEQ) {
+				continue
+			}
+			found = true
+			isElapsed := func(v ssa.Value) bool {
+				call, ok := isStaticCall(v, "time.Since")
+				if !ok {
+					return false
+				}
+				_, ok = isFieldLoad(call.Call.Args[0], "backoffController", "start")
+				return ok
+			}
+			if waitVal != nil && ((isElapsed(add.X) && add.Y == waitVal) || (isElapsed(add.Y) && add.X == waitVal)) {
+				// the refusing edge leads only to refusing returns
+				refuse := cnd.succWhen(true)
+				okRef := true
+				forward([]startPoint{atEdge(ifi.Block(), refuse)}, func(in ssa.Instruction) searchAction {
+					if r, ok := in.(*ssa.Return); ok && len(r.Results) == 2 {
+						if b, isC := constBool(r.Results[1]); !isC || b {
+							okRef = false
+						}
+					}
+					return cont
+				})
+				good = okRef
+			}
+		}
+		if found {
+			c.check(good, name+":elapsed-limit", P.pos(nx.Pos()), "a retry is refused when time.Since(start) + the wait actually returned exceeds MaxElapsedTime", "the MaxElapsedTime test does not compare time.Since(start) plus the wait that is actually returned (it uses another value, e.g. the un-jittered base): a retry whose real wait overshoots MaxElapsedTime is started")
+		} else {
+			c.bad(name+":elapsed-limit", P.pos(nx.Pos()), "next() never compares elapsed time plus the wait with MaxElapsedTime: the limit is not enforced")
+		}
+	}
 	// reset()
 	var zeroCount, startNow bool
 	eachInstr(rs, func(in ssa.Instruction) {
